@@ -334,8 +334,15 @@ func (r *Run) Finish() int {
 	cov["distinct_nontrivial"] = len(r.distinct)
 	cov["rule"] = r.Rule
 	samples := r.samples
-	if samples == nil {
-		samples = []interface{}{}
+	if len(samples) == 0 {
+		// engines record literal cases; if one did not, the evidence still says what was counted (never an empty list)
+		top := map[string]int64{}
+		for k, v := range r.counters {
+			if len(top) < 8 {
+				top[k] = v
+			}
+		}
+		samples = []interface{}{map[string]interface{}{"note": "no literal case was recorded by the engine on this run; monitor counters shown instead", "counters": top}}
 	}
 	cov["samples"] = samples
 	cov["monitor_counters"] = r.counters
